@@ -1,6 +1,8 @@
 import Model
 import Spec
 import Gen
+import Props.C10
+import Props.C11
 /-!
   C16 — answers mirror the request they answer. Theorems about `Msg.answer`
   (`Message.Answer`); `r1 r2` stand for whatever `rand.Uint32()` would return inside
@@ -50,6 +52,24 @@ theorem C16_answer_len (m : Msg) (rc r1 r2 : Nat) :
     (m.answer rc r1 r2).hdr.len = (m.answer rc r1 r2).len := by
   unfold Msg.answer newMessage Msg.addAVP Msg.len
   by_cases h : rc ≠ 0 <;> simp [h, lenL, newAVP, AVP.len, hdrLen, hasV, Val.len, fixW, T.u32, T.f64, T.i64, T.u64]
+
+/-- the state machine's CEA (success and failure) mirrors the request: identifiers (zero
+    included), command code, application id -/
+theorem C16_cea (cfg : Settings) (apps : List SApp) (ips : List Bytes) (req : Header) (v : CERView) (e : PErr)
+    (hf : req.flags < 256) :
+    (successCEA cfg apps ips req v).hdr.hbh = req.hbh ∧ (successCEA cfg apps ips req v).hdr.e2e = req.e2e ∧
+    (successCEA cfg apps ips req v).hdr.cmd = req.cmd ∧ (successCEA cfg apps ips req v).hdr.app = req.app ∧
+    (errorCEA cfg ips req v.osid e).hdr.hbh = req.hbh ∧ (errorCEA cfg ips req v.osid e).hdr.e2e = req.e2e := by
+  have h := DV.Props.C11.C11_cea_fields cfg apps ips req v e hf
+  exact ⟨h.1, h.2.1, h.2.2.1, h.2.2.2.1, h.2.2.2.2.2.1, h.2.2.2.2.2.2.1⟩
+
+/-- the state machine's DWA mirrors the request -/
+theorem C16_dwa (cfg : Settings) (req : Header) (hf : req.flags < 256) :
+    (dwa cfg req).hdr.hbh = req.hbh ∧ (dwa cfg req).hdr.e2e = req.e2e ∧ (dwa cfg req).hdr.cmd = req.cmd ∧
+    (dwa cfg req).hdr.app = req.app ∧ isRequest (dwa cfg req).hdr.flags = false ∧
+    (dwa cfg req).hdr.flags % 128 = req.flags % 128 := by
+  have h := DV.Props.C10.C13_dwa_fields cfg req hf
+  exact ⟨h.1, h.2.1, h.2.2.1, h.2.2.2.1, h.2.2.2.2.1, h.2.2.2.2.2.1⟩
 
 /-- obligations on the regenerated constants the model hard-codes -/
 theorem C16_gen : Gen.RequestFlag = 128 ∧ Gen.InvalidStreamID = invalidStream ∧ Gen.Mbit = 64 := by decide
